@@ -691,6 +691,10 @@ def coercion_scenarios(ctx, root, idx):
     mismatch_scenario(ctx, root, f"c{idx}a", "python-scalar-conversion", a, b, expect="coercion")
     q = Cfg("q", ("discrete", 3), ("box", (k,)), epsilon=1, width_size=f, depth=1)
     mismatch_scenario(ctx, root, f"c{idx}b", "epsilon-int-vs-float", q, q.with_(epsilon=0.5), expect="coercion")
+    # a Python-scalar leaf whose VALUE differs between the saved policy and the constructor arguments used for
+    # loading (e.g. a Q-policy saved with epsilon = 0 for greedy deployment): loading restores the saved value
+    q0 = Cfg("q", ("discrete", 3), ("box", (k,)), epsilon=[0.0, 0.25, 0.75][idx % 3], width_size=f, depth=1)
+    mismatch_scenario(ctx, root, f"c{idx}c", "python-scalar-value-restored", q0, q0.with_(epsilon=0.5), expect="roundtrip")
 
 
 def same_signature_scenario(ctx, root, idx):
